@@ -18,7 +18,7 @@ TWO64 = 1 << 64
 
 class Breaker:
     """Stops a run that keeps hanging (a broken server must not cost 5 s x thousands of sessions)."""
-    def __init__(self, limit=24):
+    def __init__(self, limit=16):
         self.n = 0
         self.limit = limit
         self.lock = threading.Lock()
